@@ -118,7 +118,7 @@ def f_meta(case):
         sub = sorted(qs[:n])
         g = C.dec_clifford(case['gate%d' % n])
         S3, _ = C.dec_state(be, case['state'])
-        S3.transform_by(Bk.cmap(g), Bk.mask(sub, N))
+        S3.transform_by(Bk.cmap(g), Bk.mask_arg(sub, N))
         v3 = _ent(be, S3, region, False, N)
         check(abs(v3 - base) < 1e-9, 'entropy of %s changed from %r to %r by a Clifford gate %s the region (qubits %s)' % (region, base, v3, where, sub), 'gate-invariance')
     return {'nt': 0 < len(region) < N and (r > 0 or exp >= 1), 'labels': ['N=%d' % N, 'r=%d' % r, 'S=%d' % exp]}
@@ -189,7 +189,7 @@ def f_history(case):
             if len(q) == N and not stp['usemask']:
                 S.transform_by(Bk.cmap(small))
             else:
-                S.transform_by(Bk.cmap(small), Bk.mask(q, N))
+                S.transform_by(Bk.cmap(small), Bk.mask_arg(q, N))
             L, K = big.apply(L, K)
         elif t == 'rotate':
             q = stp['qubits']
@@ -198,7 +198,7 @@ def f_history(case):
             if len(q) == N and not stp['usemask']:
                 S.rotate_by(Bk.pauli(gl, gk))
             else:
-                S.rotate_by(Bk.pauli(gl, gk), Bk.mask(q, N))
+                S.rotate_by(Bk.pauli(gl, gk), Bk.mask_arg(q, N))
             L, K = ref.rotate_rule(L, K, GL, gk)
         elif t == 'set_r':
             r = stp['r'] % (N + 1)
